@@ -234,7 +234,43 @@ class Check:
                 if t not in self.trusted:
                     self.trusted.append(t)
         self.log(f"proof obligations {len(self.discharged)}/{len(self.obligations)} discharged")
+        if not self.quick and ok:
+            ok = self.coqchk(sorted(set(theorems.values())), allowed_axioms) and ok
         return ok
+
+    def coqchk(self, modules, allowed_axioms=frozenset()):
+        """Thorough tier: re-check the compiled cone with the independent checker and list its axioms."""
+        mods = ["AV." + m for m in modules]
+        cmd = ["timeout", "2400", "coqchk", "-silent", "-o", *COQFLAGS, *mods]
+        t0 = time.time()
+        rc, out = sh(cmd, cwd=COQ, timeout=2500)
+        (self.work / "coqchk.log").write_text(out)
+        self.checker_cmds.append("coqchk -silent -o " + " ".join(mods) + f" ({time.time() - t0:.0f}s)")
+        if rc != 0:
+            self.broke("proof", "coqchk rejected the compiled development", out[-1200:])
+            return False
+        m = re.search(r"\* Axioms:(.*?)\n\s*\n\* Constants/Inductives relying on type-in-type:(.*?)\n\s*\n"
+                      r"\* Constants/Inductives relying on unsafe \(co\)fixpoints:(.*?)\n\s*\n"
+                      r"\* Inductives whose positivity is assumed:(.*?)\n", out + "\n", re.S)
+        if not m:
+            self.broke("proof", "coqchk summary unparsable", out[-800:])
+            return False
+        axioms = [a.strip() for a in m.group(1).replace("<none>", "").split("\n") if a.strip()]
+        unsafe = [x.strip() for g in m.groups()[1:] for x in g.replace("<none>", "").split("\n") if x.strip()]
+        if unsafe:
+            self.broke("proof", "coqchk reports assumed type-in-type / unsafe fixpoints / positivity", unsafe[:10])
+            return False
+        bad = [a for a in axioms if a.split(".")[-1] not in {x.split(".")[-1] for x in allowed_axioms}
+               and not a.startswith("Coq.")]
+        if bad:
+            self.broke("proof", "coqchk lists axioms outside the standard library / allow-list", bad[:10])
+            return False
+        for a in axioms:
+            t = f"coqchk: axiom in the loaded libraries: {a}"
+            if t not in self.trusted:
+                self.trusted.append(t)
+        self.log(f"coqchk ok, {len(axioms)} library axioms")
+        return True
 
     # ------------------------------------------------------------------
     def coq_cases(self, tag: str, preamble: str, case_type: str, cases: list[str], check_fn: str,
@@ -253,7 +289,7 @@ class Check:
             f.write_text("\n".join(body) + "\n")
             files.append((k, f))
         mism, legal, errors = [], 0, []
-        with cf.ThreadPoolExecutor(max_workers=NPROC) as ex:
+        with cf.ThreadPoolExecutor(max_workers=min(NPROC, int(os.environ.get('VERIF_COQ_JOBS', '8')))) as ex:
             futs = {ex.submit(coqc_file, f, timeout): (k, f) for k, f in files}
             for fu in cf.as_completed(futs):
                 k, f = futs[fu]
